@@ -4,7 +4,7 @@
 NAME=$1; SRC=$2
 LOG=/tmp/confirm/benign_$NAME.log; : > "$LOG"
 for P in "$SRC"/patch_*.diff; do
-  W=/tmp/confirm/benign_$NAME_$(basename $P .diff)
+  W=/tmp/confirm/benign_${NAME}_$(basename $P .diff)
   rm -rf "$W"; mkdir -p "$W"; git -C /repo archive HEAD | tar -x -C "$W"
   echo "=== $(basename $P)" >> "$LOG"
   if ! (cd "$W" && patch -p1 -s < "$P") >/dev/null 2>&1; then echo "PATCH DOES NOT APPLY" >> "$LOG"; rm -rf "$W"; continue; fi
